@@ -11,8 +11,11 @@
 // nullable column, the soft-delete column or an embedded audit struct in front of the row
 // identity, see models.go), the destination (fresh, or REUSED: a struct / slice that already
 // holds earlier records with arbitrary rows in their relation fields), the finisher for a struct
-// destination (First | Take | Last | Find) and the handle (fresh chain, or second execution of a
-// chain frozen with Session).
+// destination (First | Take | Last | Find), the handle (fresh chain, or second execution of a
+// chain frozen with Session), the soft-delete scope (in force, lifted for the whole query by
+// Unscoped(), or lifted for one preloaded relation by a scope function) and the parent value of
+// Association().Find (one record, or a slice of 1-4 records - duplicates and soft-deleted rows
+// included - whose keys share parts crosswise).
 package c11
 
 import (
@@ -64,10 +67,16 @@ type op struct {
 	all      bool
 	allCond  *cond
 	joins    []dir
-	// assoc-find
-	parent   *row
+	// assoc-find: Model(&parent) | Model(&[]T{parents...}) | Model(&[]*T{parents...}); parents may
+	// repeat and may be soft-deleted rows (only their key values are used)
+	parents  []*row
+	pshape   string // struct | slice | ptrslice
 	relName  string
 	findCond *cond
+	// the whole query runs under Unscoped() (called first or last in the chain): the soft-delete scope
+	// is lifted for the parents and for every relation loaded
+	unscoped     bool
+	unscopedLast bool
 	// struct destinations: First | Take | Last | Find
 	fin string
 	// reused destination: what the destination holds BEFORE the call. struct: one element, the
@@ -171,6 +180,8 @@ func (c *cond) String() string {
 		return fmt.Sprintf(`func(tx *gorm.DB) *gorm.DB { return tx.Where("v %s ?", %d) }`, c.op, c.x)
 	case "scope-order":
 		return fmt.Sprintf(`func(tx *gorm.DB) *gorm.DB { return tx.Where("v %s ?", %d).Order("v desc") }`, c.op, c.x)
+	case "scope-unscoped":
+		return fmt.Sprintf(`func(tx *gorm.DB) *gorm.DB { return tx.Unscoped().Where("v %s ?", %d) }`, c.op, c.x)
 	case "join-on":
 		return fmt.Sprintf(`db.Where(clause.%s{Column: clause.Column{Table: clause.CurrentTable, Name: "v"}, Value: %d})`, map[string]string{">=": "Gte", "<": "Lt", "=": "Eq"}[c.op], c.x)
 	}
@@ -190,6 +201,8 @@ func (c *cond) args() []interface{} {
 		return []interface{}{func(tx *gorm.DB) *gorm.DB { return tx.Where(q, x) }}
 	case "scope-order":
 		return []interface{}{func(tx *gorm.DB) *gorm.DB { return tx.Where(q, x).Order("v desc") }}
+	case "scope-unscoped":
+		return []interface{}{func(tx *gorm.DB) *gorm.DB { return tx.Unscoped().Where(q, x) }}
 	case "join-on":
 		col := clause.Column{Table: clause.CurrentTable, Name: "v"}
 		var e clause.Expression
@@ -215,12 +228,12 @@ func genCond(r *core.Rand, forms ...string) *cond {
 }
 
 // walk draws a relation path starting at m.
-func walk(r *core.Rand, m *model, depth int, singleOnly bool) string {
+func walk(r *core.Rand, m *model, depth int, singleOnly bool, skip ...func(*rel) bool) string {
 	var segs []string
 	for d := 0; d < depth; d++ {
 		var cands []*rel
 		for _, rl := range m.rels {
-			if !singleOnly || rl.single {
+			if (!singleOnly || rl.single) && !(len(skip) > 0 && skip[0](rl)) {
 				cands = append(cands, rl)
 			}
 		}
@@ -279,16 +292,30 @@ func genOp(r *core.Rand, ds *dataset) *op {
 	default:
 		o.kind = "assoc-find"
 	}
+	o.unscoped = r.Chance(1, 5)
+	o.unscopedLast = o.unscoped && r.Chance(1, 3)
+	// rows a parent can be drawn from: the live ones, under Unscoped() all of them
 	live := liveRows(ds, o.root)
+	if o.unscoped {
+		live = ds.rows[o.root]
+	}
 	if o.kind == "assoc-find" {
-		if len(live) == 0 {
+		// the parents are values the caller holds: any row of the table, soft-deleted or not
+		if len(ds.rows[o.root]) == 0 {
 			o.root = w.node
-			live = liveRows(ds, o.root)
 		}
-		if len(live) == 0 {
+		if all := ds.rows[o.root]; len(all) == 0 {
 			o.kind = "preload"
+			live = nil
 		} else {
-			o.parent = core.Pick(r, live)
+			o.pshape = core.Pick(r, []string{"struct", "struct", "slice", "ptrslice"})
+			n := 1
+			if o.pshape != "struct" {
+				n = r.Range(1, 4)
+			}
+			for i := 0; i < n; i++ {
+				o.parents = append(o.parents, core.Pick(r, all))
+			}
 			o.relName = core.Pick(r, o.root.rels).name
 			o.dest = core.Pick(r, []string{"slice", "ptrslice"})
 			if r.Chance(1, 3) {
@@ -333,7 +360,9 @@ func genOp(r *core.Rand, ds *dataset) *op {
 			o.pre = append(o.pre, genStale(r, ds, o.root, core.Pick(r, ds.rows[o.root])))
 		}
 	}
-	preloadForms := []string{"args", "args", "map", "scope", "scope-order"}
+	preloadForms := []string{"args", "args", "map", "scope", "scope-order", "scope-unscoped"}
+	// under Unscoped() a has-one with several candidates cannot be joined (the JOIN multiplies the parent)
+	noJoin := func(rl *rel) bool { return o.unscoped && ds.ambiguous(rl) }
 	addPreload := func(path string, allowCond bool) {
 		if path == "" {
 			return
@@ -373,7 +402,10 @@ func genOp(r *core.Rand, ds *dataset) *op {
 		}
 		inner := r.Chance(1, 4)
 		for i := 0; i < nj; i++ {
-			p := walk(r, o.root, core.Pick(r, []int{1, 1, 2, 2, 3}), true)
+			p := walk(r, o.root, core.Pick(r, []int{1, 1, 2, 2, 3}), true, noJoin)
+			if p == "" {
+				continue
+			}
 			dup := false
 			for _, d := range o.joins {
 				dup = dup || d.path == p
@@ -381,6 +413,10 @@ func genOp(r *core.Rand, ds *dataset) *op {
 			if !dup {
 				o.joins = append(o.joins, dir{path: p, inner: inner})
 			}
+		}
+		if len(o.joins) == 0 { // cannot happen (a belongs-to is never ambiguous); keeps the generator total
+			o.unscoped, o.unscopedLast = false, false
+			o.joins = []dir{{path: walk(r, o.root, 1, true), inner: inner}}
 		}
 		if len(o.joins) == 1 && !strings.Contains(o.joins[0].path, ".") && r.Chance(1, 3) {
 			o.joins[0].c = genCond(r, "join-on")
@@ -403,6 +439,21 @@ func genOp(r *core.Rand, ds *dataset) *op {
 			addPreload(p, !covered)
 		}
 		o.dup = o.dest != "struct" && r.Chance(1, 6)
+	}
+	// a scope function calling Unscoped() lifts the scope of the relation it is attached to; what it
+	// means for relations loaded BELOW that one is not fixed by the statement: only on paths that no
+	// other Preload extends
+	for i, d := range o.preloads {
+		if !d.c.lifts() {
+			continue
+		}
+		for _, e := range o.preloads {
+			if e.path != d.path && isPrefixOrEqual(d.path, e.path) {
+				c := *d.c
+				c.form = "scope"
+				o.preloads[i].c = &c
+			}
+		}
 	}
 	o.twice = r.Chance(1, 5)
 	return o
@@ -451,7 +502,22 @@ func (o *op) desc() string {
 		}
 	}
 	if o.kind == "assoc-find" {
-		fmt.Fprintf(&sb, "db.Model(&%s{u=%d}).Association(%q).Find(&%s", o.root.name, o.parent.u, o.relName, o.dest)
+		sb.WriteString("db")
+		if o.unscoped && !o.unscopedLast {
+			sb.WriteString(".Unscoped()")
+		}
+		switch o.pshape {
+		case "struct":
+			fmt.Fprintf(&sb, ".Model(&%s{u=%d})", o.root.name, o.parents[0].u)
+		case "slice":
+			fmt.Fprintf(&sb, ".Model(&[]%s{<rows u=%v>})", o.root.name, usOfRowsUnsorted(o.parents))
+		default:
+			fmt.Fprintf(&sb, ".Model(&[]*%s{<rows u=%v>})", o.root.name, usOfRowsUnsorted(o.parents))
+		}
+		if o.unscoped && o.unscopedLast {
+			sb.WriteString(".Unscoped()")
+		}
+		fmt.Fprintf(&sb, ".Association(%q).Find(&%s", o.relName, o.dest)
 		if o.findCond != nil {
 			sb.WriteString(", " + o.findCond.String())
 		}
@@ -459,6 +525,9 @@ func (o *op) desc() string {
 		return sb.String()
 	}
 	sb.WriteString("db")
+	if o.unscoped && !o.unscopedLast {
+		sb.WriteString(".Unscoped()")
+	}
 	for _, d := range o.joins {
 		fn := "Joins"
 		if d.inner {
@@ -489,6 +558,9 @@ func (o *op) desc() string {
 	}
 	if o.filter != nil {
 		fmt.Fprintf(&sb, ".Where(%s.u IN %v)", o.root.table, o.filter)
+	}
+	if o.unscoped && o.unscopedLast {
+		sb.WriteString(".Unscoped()")
 	}
 	if o.twice {
 		sb.WriteString(".Session(&gorm.Session{}) <executed twice, second result compared> ")
@@ -523,6 +595,8 @@ type checker struct {
 	attached int // children found attached where expected (non-trivial work)
 	parents  int
 	relKinds map[string]int
+	unscoped bool // the whole query runs under Unscoped()
+	lifted   int  // soft-deleted rows found attached where the lifted scope demands them
 }
 
 func (k *checker) add(rl *rel, f string, a ...interface{}) {
@@ -568,8 +642,10 @@ func (k *checker) scalars(m *model, got reflect.Value, want *row, where string, 
 			k.add(rl, "%s: column %s loaded as %s, inserted row has %s", where, cl.name, g, w)
 		}
 	}
-	if m.soft && got.FieldByName("DeletedAt").Interface().(gorm.DeletedAt).Valid {
-		k.add(rl, "%s: a soft-deleted row was loaded", where)
+	// which rows may appear at all is decided by the reference join (soft-delete scope or Unscoped);
+	// here the column only has to be read faithfully
+	if m.soft && got.FieldByName("DeletedAt").Interface().(gorm.DeletedAt).Valid != want.deleted {
+		k.add(rl, "%s: deleted_at loaded as set=%v, inserted row has set=%v", where, !want.deleted, want.deleted)
 	}
 }
 
@@ -652,8 +728,23 @@ func (k *checker) record(m *model, got reflect.Value, want *row, t *loadNode, wh
 			continue
 		}
 		k.relKinds[string(rl.kind)]++
-		exp := k.ds.expected(rl, want, sub.c)
+		exp := k.ds.expected(rl, want, sub.c, k.unscoped)
+		if rl.single && len(exp) > 1 && len(kids) == 1 {
+			// lifted scope, several candidates for a single-valued relation (never joined, see genOp):
+			// which one is held is not fixed by the statement - any ONE of them
+			for _, e := range exp {
+				if e.u == uOf(kids[0]) {
+					exp = []*row{e}
+					break
+				}
+			}
+		}
 		gu, wu := usOfVals(kids), usOfRows(exp)
+		for _, e := range exp {
+			if sameInts(gu, wu) && !k.ds.live(rl.target, e) {
+				k.lifted++
+			}
+		}
 		if !sameInts(gu, wu) {
 			k.add(rl, "%s (%s, owner key %s): attached rows u=%v, reference join gives u=%v", w, rl.kind, want.tuple(rl.ownerCols), gu, wu)
 			if n := len(k.problems); n > 0 && k.problems[n-1].rl == rl {
@@ -671,7 +762,7 @@ func (k *checker) record(m *model, got reflect.Value, want *row, t *loadNode, wh
 }
 
 // resolves reports whether an inner-joined path exists for parent p.
-func (ds *dataset) resolves(m *model, p *row, d dir) bool {
+func (ds *dataset) resolves(m *model, p *row, d dir, unscoped bool) bool {
 	segs := strings.Split(d.path, ".")
 	for i, s := range segs {
 		rl := m.rel(s)
@@ -679,7 +770,7 @@ func (ds *dataset) resolves(m *model, p *row, d dir) bool {
 		if i == len(segs)-1 {
 			c = d.c
 		}
-		cands := ds.expected(rl, p, c)
+		cands := ds.expected(rl, p, c, unscoped)
 		if len(cands) == 0 {
 			return false
 		}
@@ -690,7 +781,11 @@ func (ds *dataset) resolves(m *model, p *row, d dir) bool {
 
 func (ds *dataset) parentsOf(o *op) []*row {
 	var out []*row
-	for _, rw := range liveRows(ds, o.root) {
+	cands := liveRows(ds, o.root)
+	if o.unscoped {
+		cands = ds.rows[o.root]
+	}
+	for _, rw := range cands {
 		if o.filter != nil {
 			in := false
 			for _, u := range o.filter {
@@ -702,7 +797,7 @@ func (ds *dataset) parentsOf(o *op) []*row {
 		}
 		ok := true
 		for _, d := range o.joins {
-			if d.inner && !ds.resolves(o.root, rw, d) {
+			if d.inner && !ds.resolves(o.root, rw, d, o.unscoped) {
 				ok = false
 			}
 		}
@@ -759,11 +854,25 @@ func preFill(sl reflect.Value, m *model, pre []staleRec) {
 }
 
 func execOp(ds *dataset, o *op) *checker {
-	k := &checker{ds: ds, relKinds: map[string]int{}}
+	k := &checker{ds: ds, relKinds: map[string]int{}, unscoped: o.unscoped}
 	root := H.DB.Session(&gorm.Session{})
 	if o.kind == "assoc-find" {
 		rl := o.root.rel(o.relName)
-		parent := fill(o.root, o.parent)
+		var parent reflect.Value
+		switch o.pshape {
+		case "slice":
+			parent = reflect.New(reflect.SliceOf(o.root.typ))
+			for _, rw := range o.parents {
+				parent.Elem().Set(reflect.Append(parent.Elem(), fill(o.root, rw).Elem()))
+			}
+		case "ptrslice":
+			parent = reflect.New(reflect.SliceOf(reflect.PtrTo(o.root.typ)))
+			for _, rw := range o.parents {
+				parent.Elem().Set(reflect.Append(parent.Elem(), fill(o.root, rw)))
+			}
+		default:
+			parent = fill(o.root, o.parents[0])
+		}
 		elem := rl.target.typ
 		var out reflect.Value
 		if o.dest == "ptrslice" {
@@ -774,21 +883,63 @@ func execOp(ds *dataset, o *op) *checker {
 		if o.reuse {
 			preFill(out.Elem(), rl.target, o.pre)
 		}
-		err := root.Model(parent.Interface()).Association(o.relName).Find(out.Interface(), o.findCond.args()...)
+		adb := root
+		if o.unscoped && !o.unscopedLast {
+			adb = adb.Unscoped()
+		}
+		adb = adb.Model(parent.Interface())
+		if o.unscoped && o.unscopedLast {
+			adb = adb.Unscoped()
+		}
+		err := adb.Association(o.relName).Find(out.Interface(), o.findCond.args()...)
 		if err != nil {
 			k.add(rl, "error: %v", err)
 			return k
 		}
 		k.relKinds[string(rl.kind)]++
-		k.parents = 1
 		kids := k.kidsOf(out.Elem(), "result", rl)
-		exp := ds.expected(rl, o.parent, o.findCond)
+		// the rows of ANY of the given parents, each once (set union over the distinct parents)
+		var exp []*row
+		var keys []string
+		seenP, seenE := map[int64]bool{}, map[int64]bool{}
+		for _, pr := range o.parents {
+			if seenP[pr.u] {
+				continue
+			}
+			seenP[pr.u] = true
+			keys = append(keys, pr.tuple(rl.ownerCols).String())
+			for _, e := range ds.expected(rl, pr, o.findCond, o.unscoped) {
+				if !seenE[e.u] {
+					seenE[e.u] = true
+					exp = append(exp, e)
+				}
+			}
+		}
+		k.parents = len(seenP)
+		if rl.kind == many2many && len(seenP) > 1 {
+			// several parents of a many2many: how often a row linked to more than one of them is
+			// returned is not fixed by the statement - compared as a set
+			var uniq []reflect.Value
+			seenK := map[int64]bool{}
+			for _, kid := range kids {
+				if !seenK[uOf(kid)] {
+					seenK[uOf(kid)] = true
+					uniq = append(uniq, kid)
+				}
+			}
+			kids = uniq
+		}
 		gu, wu := usOfVals(kids), usOfRows(exp)
 		if !sameInts(gu, wu) {
-			k.add(rl, "Association(%q).Find (%s, owner key %s): returned rows u=%v, reference join gives u=%v", o.relName, rl.kind, o.parent.tuple(rl.ownerCols), gu, wu)
+			k.add(rl, "Association(%q).Find (%s, owner keys %s): returned rows u=%v, reference join gives u=%v", o.relName, rl.kind, strings.Join(keys, " "), gu, wu)
 			return k
 		}
 		k.attached = len(kids)
+		for _, e := range exp {
+			if !ds.live(rl.target, e) {
+				k.lifted++
+			}
+		}
 		for _, kid := range kids {
 			k.record(rl.target, kid, ds.byU(rl.target, uOf(kid)), nil, fmt.Sprintf("result[u=%d]", uOf(kid)), rl, false)
 		}
@@ -796,6 +947,9 @@ func execOp(ds *dataset, o *op) *checker {
 	}
 
 	db := root
+	if o.unscoped && !o.unscopedLast {
+		db = db.Unscoped()
+	}
 	for _, d := range o.joins {
 		switch {
 		case d.inner:
@@ -819,6 +973,9 @@ func execOp(ds *dataset, o *op) *checker {
 			vals[i] = u
 		}
 		db = db.Where(clause.IN{Column: clause.Column{Table: clause.CurrentTable, Name: "u"}, Values: vals})
+	}
+	if o.unscoped && o.unscopedLast {
+		db = db.Unscoped()
 	}
 	if o.twice {
 		db = db.Session(&gorm.Session{})
@@ -865,7 +1022,7 @@ func execOp(ds *dataset, o *op) *checker {
 		err = res.Error
 		if errors.Is(err, gorm.ErrRecordNotFound) || (err == nil && o.fin == "Find" && res.RowsAffected == 0) {
 			if len(want) > 0 {
-				k.add(nil, "%s: no record found although parent u=%d is live and selected", o.fin, want[0].u)
+				k.add(nil, "%s: no record found although parent u=%d is selected and within the soft-delete scope of the query", o.fin, want[0].u)
 			}
 			return k
 		}
@@ -931,7 +1088,7 @@ func signature(ds *dataset, o *op, k *checker) string {
 			return "panic"
 		}
 		if strings.HasPrefix(p.msg, "error: IN(...) element has") && o.kind == "assoc-find" {
-			if rl := o.root.rel(o.relName); rl.composite() && allZero(o.parent.tuple(rl.ownerCols)) {
+			if rl := o.root.rel(o.relName); rl.composite() && anyAllZero(o.parents, rl.ownerCols) {
 				return "assoc-find-empty-composite-key"
 			}
 		}
@@ -966,6 +1123,15 @@ func signature(ds *dataset, o *op, k *checker) string {
 		return "mixed-key-hazards"
 	}
 	return "mismatch:" + o.kind
+}
+
+func anyAllZero(rows []*row, cols []string) bool {
+	for _, rw := range rows {
+		if allZero(rw.tuple(cols)) {
+			return true
+		}
+	}
+	return false
 }
 
 // staleSignature names a failure that occurs only because the destination held earlier content:
@@ -1006,6 +1172,47 @@ func staleSignature(o *op, k *checker) string {
 		classes = []string{o.kind}
 	}
 	return "stale-on-reused-destination:" + o.dest + ":" + strings.Join(classes, "+")
+}
+
+func distinctRows(rows []*row) int {
+	seen := map[int64]bool{}
+	for _, rw := range rows {
+		seen[rw.u] = true
+	}
+	return len(seen)
+}
+
+// mechanisms lists how the deviating relation fields were to be loaded (preload | joins |
+// assoc-find; parents when the set of parent records itself deviates), for signatures.
+func mechanisms(o *op, k *checker) string {
+	set := map[string]bool{}
+	for _, p := range k.problems {
+		mech := "preload"
+		switch {
+		case o.kind == "assoc-find":
+			mech = "assoc-find"
+		case p.rl == nil:
+			mech = "parents"
+			for _, j := range o.joins {
+				if j.inner {
+					mech = "parents-of-inner-joins"
+				}
+			}
+		default:
+			for _, j := range o.joins {
+				if p.path != "" && isPrefixOrEqual(p.path, j.path) {
+					mech = "joins"
+				}
+			}
+		}
+		set[mech] = true
+	}
+	var out []string
+	for m := range set {
+		out = append(out, m)
+	}
+	sort.Strings(out)
+	return strings.Join(out, "+")
 }
 
 // safeExec turns a panic escaping gorm into a problem (so that it gets a signature of its own).
@@ -1078,6 +1285,18 @@ func run(c *core.Ctx) {
 		if o.twice {
 			c.Inc("ops_second_execution_of_session_handle")
 		}
+		if o.unscoped {
+			c.Inc("ops_unscoped_" + o.kind)
+		}
+		for _, d := range o.preloads {
+			if d.c.lifts() {
+				c.Inc("preloads_with_unscoped_scope_function")
+			}
+		}
+		if o.kind == "assoc-find" {
+			c.Inc(fmt.Sprintf("assoc_find_model_%s_%d_distinct_parents", o.pshape, distinctRows(o.parents)))
+		}
+		c.Add("soft_deleted_rows_attached_under_lifted_scope", k.lifted)
 		c.Add("parents_checked", k.parents)
 		c.Add("children_attached", k.attached)
 		for kind, n := range k.relKinds {
@@ -1093,20 +1312,59 @@ func run(c *core.Ctx) {
 				"world": w.name, "profile": profileNames[p], "operation": desc, "problems": msgs, "tables": ds.dump(),
 				"note": "rows inserted with raw SQL; u is a unique row id, a/b (ta/tb) are the key parts, boss_*/own_*/node_* the foreign keys, n a nullable payload",
 			}
-			// attribute to a reused destination / a reused handle only counterfactually
+			// attribute to a reused destination / a reused handle / Unscoped() / several parents only
+			// counterfactually: the first single dimension whose removal makes the call agree
+			attributed := false
 			if o.reuse {
 				fresh := *o
 				fresh.reuse, fresh.pre = false, nil
 				if kf := safeExec(ds, &fresh); len(kf.problems) == 0 {
+					attributed = true
 					sig = staleSignature(o, k)
 					detail["counterfactual"] = "the same call into a fresh zero-valued destination agrees with the reference join: " + fresh.desc()
 				}
-			} else if o.twice {
+			}
+			if !attributed && o.twice {
 				once := *o
 				once.twice = false
 				if kf := safeExec(ds, &once); len(kf.problems) == 0 {
+					attributed = true
 					sig = "second-execution-of-session-handle:" + o.kind
 					detail["counterfactual"] = "the first execution of the same chain agrees with the reference join: " + once.desc()
+				}
+			}
+			if !attributed && o.unscoped {
+				// the same call within the soft-delete scope (a soft-deleted parent selected for a struct
+				// destination is then out of scope, which the reference accounts for)
+				scoped := *o
+				scoped.unscoped, scoped.unscopedLast = false, false
+				if kf := safeExec(ds, &scoped); len(kf.problems) == 0 {
+					attributed = true
+					sig = "unscoped:" + mechanisms(o, k)
+					detail["counterfactual"] = "the same call without Unscoped() agrees with the reference join: " + scoped.desc()
+				}
+			}
+			if !attributed && o.kind == "assoc-find" && distinctRows(o.parents) > 1 {
+				ok := true
+				seen := map[int64]bool{}
+				for _, pr := range o.parents {
+					if seen[pr.u] {
+						continue
+					}
+					seen[pr.u] = true
+					one := *o
+					one.parents = []*row{pr}
+					if kf := safeExec(ds, &one); len(kf.problems) > 0 {
+						ok = false
+					}
+				}
+				if ok {
+					rl := o.root.rel(o.relName)
+					sig = "assoc-find-several-parents:" + string(rl.kind)
+					if rl.composite() {
+						sig += ":composite-key"
+					}
+					detail["counterfactual"] = "the same call for each of the parents alone (same container shape) agrees with the reference join"
 				}
 			}
 			c.Inc("sig_" + sig)
@@ -1130,7 +1388,8 @@ func run(c *core.Ctx) {
 			if b > 3 {
 				b = 3
 			}
-			c.Shape(w.name, profileNames[p], o.kind, o.root.name, o.relName, o.dest, o.fin, o.reuse, o.twice, o.dup, o.all, o.allCond != nil, o.findCond != nil, strings.Join(paths, "|"), b)
+			c.Shape(w.name, profileNames[p], o.kind, o.root.name, o.relName, o.dest, o.fin, o.reuse, o.twice, o.dup, o.all, o.allCond != nil, o.findCond != nil, strings.Join(paths, "|"), b,
+				o.unscoped, o.pshape, distinctRows(o.parents) > 1)
 			c.Inc("nontrivial_ops")
 			if c.WantSample() && i == 3 {
 				c.Sample(map[string]interface{}{"world": w.name, "profile": profileNames[p], "operation": desc, "parents": k.parents, "children_attached": k.attached, "tables": ds.dump()})
@@ -1144,14 +1403,19 @@ var Engine = &core.Engine{
 	Level: "exploration",
 	Rule: "per case one random data graph (raw-SQL inserted) in one of five worlds of the same relation family - key = string | integer | string+string | integer+string | integer+integer (composite worlds 6 of 8 cases) - " +
 		"with self-referential belongs-to/has-many, has-many + belongs-to back, has-one, many2many (composite join keys on both sides), polymorphic has-many and polymorphic has-one on the same table (single-key worlds; the has-one is also joined); the column order differs per world: the models that single-valued relations point to start with an embedded audit struct {DeletedAt, N} | a nullable foreign key | a nullable payload N | DeletedAt | the never-NULL row id (control), N is NULL in about half of the rows, so joined rows with leading NULL columns exist in four worlds; key parts drawn from hostile pools ('_' ',' spaces, 'nil', '0', '', leading zeros, clusters (s1,s2_s3)/(s1_s2,s3) that collide only after joining), " +
-		"foreign keys existing / dangling (preferably re-splits of an existing key) / NULL / partially NULL / zero part, soft-deleted rows in every soft-delete table; each graph is biased by one of four profiles (clean | separator clusters | partial NULL next to the text 'nil' | integer part 0) and the hazards it really carries are measured per relation, so a mismatch is signed composite-key-collision / null-part-vs-nil-text / zero-int-key-part only when that is the single hazard of the relations involved (hazard-free relations must match exactly: signature mismatch:*); x 8 operations: Preload of 1-3 random relation paths of depth 1-3 (conditions as args, map, scope function, scope with Order), Preload(clause.Associations) (+condition, +nested path), " +
-		"Joins/InnerJoins of 1-2 single-valued paths of depth 1-3 (+ON condition) combined with Preloads below/next to them, Association(rel).Find (+conditions) into []T/[]*T; parents into struct (First | Take | Last | Find), []T, []*T, optionally every parent twice in the result (also next to association joins); " +
+		"composite keys also sharing one part with / being the CROSS of two other keys ((a,1),(b,2) next to (a,2)), foreign keys existing / dangling (preferably re-splits or crosses of existing keys) / NULL / partially NULL / zero part, soft-deleted rows in every soft-delete table; each graph is biased by one of four profiles (clean | separator clusters | partial NULL next to the text 'nil' | integer part 0) and the hazards it really carries are measured per relation, so a mismatch is signed composite-key-collision / null-part-vs-nil-text / zero-int-key-part only when that is the single hazard of the relations involved (hazard-free relations must match exactly: signature mismatch:*); x 8 operations: Preload of 1-3 random relation paths of depth 1-3 (conditions as args, map, scope function, scope with Order), Preload(clause.Associations) (+condition, +nested path), " +
+		"Joins/InnerJoins of 1-2 single-valued paths of depth 1-3 (+ON condition) combined with Preloads below/next to them, Association(rel).Find (+conditions) into []T/[]*T " +
+		"on Model(&record) or Model(&[]T) / Model(&[]*T) holding 1-4 records drawn from ALL rows of the table (repeats and soft-deleted records included: only their key values count; expected = set union of the reference rows of the distinct parents); parents into struct (First | Take | Last | Find), []T, []*T, optionally every parent twice in the result (also next to association joins); " +
+		"soft-delete scope: 1/5 of all operations of every kind run under Unscoped() (called first, or last in the chain): soft-deleted parents are then selected and every relation - preloaded at any depth, attached by Joins/InnerJoins (ON clause), returned by Association().Find - must also hold its soft-deleted rows; a Preload condition may be a scope function calling Unscoped() (lifts the scope of that one relation); the deleted_at column of every loaded row is compared with the inserted row; " +
 		"destination fresh or REUSED (2/5 of the struct, 1/6 of the slice destinations, 1/4 of the Association().Find results): it already holds earlier records - a struct holds the record of the row that is read again - whose relation fields carry 1-2 arbitrary rows (rows whose key still matches but that are soft-deleted or excluded by the condition, or rows of another parent): after the call every REQUESTED relation must hold exactly the reference rows; 1/5 of the chains are frozen with Session(&gorm.Session{}) and executed twice, the second execution is compared; " +
-		"a failure that disappears with a fresh destination is signed stale-on-reused-destination:<dest>:<preload|joins|assoc-find>[:<relation kind>[:no-owner-key]], one that disappears on the first execution second-execution-of-session-handle:<kind>; " +
-		"distinct = (world, operation kind, root, relation paths with condition forms, destination, finisher, reused flag, second-execution flag, duplicate flag, attached-children bucket); non-trivial = at least one child row was attached where the reference join expects it",
+		"a failure that disappears with a fresh destination is signed stale-on-reused-destination:<dest>:<preload|joins|assoc-find>[:<relation kind>[:no-owner-key]], one that disappears on the first execution second-execution-of-session-handle:<kind>, " +
+		"one that disappears without Unscoped() unscoped:<preload|joins|assoc-find|parents|parents-of-inner-joins>, an Association().Find on several parents that agrees for each parent alone assoc-find-several-parents:<relation kind>[:composite-key] (tried in this order); " +
+		"distinct = (world, operation kind, root, relation paths with condition forms, destination, finisher, reused flag, second-execution flag, duplicate flag, attached-children bucket, Unscoped flag, shape of the Association() parent value, several parents); non-trivial = at least one child row was attached where the reference join expects it",
 	Assumptions: []string{
 		"a record whose referenced key parts are ALL zero-valued (0 / '') is never generated as a match target: gorm treats an all-zero key as 'no key' (GetIdentityFieldValuesMap skips it); keys with SOME zero part are generated",
-		"has-one: at most one live child row per owner key (which of several candidates is picked is not fixed by the statement); any number of soft-deleted candidates",
+		"has-one: at most one live child row per owner key (which of several candidates is picked is not fixed by the statement); any number of soft-deleted candidates. Where the soft-delete scope is lifted and a has-one owner has several candidates: a preloaded has-one may hold any ONE of them, and such a relation is never part of a Joins path (the JOIN would multiply the parent row); Association().Find returns all of them",
+		"Unscoped() lifts the soft-delete scope of the whole query: parents, every preloaded level, joined relations, Association().Find (gorm copies Statement.Unscoped into every preload query and reads it when it writes a join's ON clause). A scope function calling Unscoped() is only attached to a Preload path that no other Preload extends (whether it reaches the levels below is not fixed by the statement) and never to Preload(clause.Associations)",
+		"Association().Find on several parents: the result is compared with the set union of the parents' reference rows; for has-one / has-many / belongs-to / polymorphic every row must be returned once, for many2many the number of times a row linked to several of the parents is returned is not compared (not fixed by the statement); the parent records carry only their scalar columns",
 		"a reused destination holds, in its scalar fields, the current column values of the row that is read again (so First(&dest) adds the primary-key condition of that very row); relation fields of a reused STRUCT that the call does not request keep what they held (not fixed by the statement: not compared); elements of reused slices are re-created by gorm and compared like fresh ones",
 		"non-pointer scalar columns are never NULL (gorm leaves a non-pointer field of a reused destination untouched when the column is NULL: plain scanning, not part of this property)",
 		"polymorphic has-one: at most one row per (owner key, type value)",
